@@ -705,5 +705,33 @@ int main(int argc, char **argv)
         }
         if(!g_stop) g_done += "timefrac ";
     }
+    // ---- time stamps are local times: the same texts in a time zone with daylight saving time (denotation by the C library's own mktime with
+    // tm_isdst = -1; dates in winter, in summer and on both sides of the two switches, away from the skipped and the repeated hour)
+    {
+        uint64_t top = g_top++;
+        if(!g_stop && vp::mine(top)) {
+            setenv("TZ", "CET-1CEST,M3.5.0,M10.5.0/3", 1); tzset();
+            static const int D[][6] = {{2016, 1, 16, 19, 44, 6}, {2016, 7, 16, 19, 44, 6}, {2016, 7, 16, 0, 0, 0}, {2016, 3, 27, 1, 30, 0}, {2016, 3, 27, 3, 30, 0}, {2016, 10, 30, 1, 30, 0},
+                                     {2016, 10, 30, 4, 30, 0}, {2016, 6, 30, 23, 59, 59}, {2037, 8, 1, 12, 0, 0}};
+            idx = 0;
+            for(auto &d : D) for(int form = 0; form < 2; ++form) {
+                uint64_t my = idx++;
+                std::string cid = "dst:" + std::to_string(my);
+                if(!vp::want(cid)) continue;
+                if(form == 1 && (d[3] || d[4] || d[5])) continue;            // the date-only spelling for midnight
+                vp::current_case() = cid; vp::state(); vp::eval(); vp::nontrivial(vp::fnv(cid));
+                struct tm tmv; memset(&tmv, 0, sizeof tmv); tmv.tm_year = d[0] - 1900; tmv.tm_mon = d[1] - 1; tmv.tm_mday = d[2]; tmv.tm_hour = d[3]; tmv.tm_min = d[4]; tmv.tm_sec = d[5]; tmv.tm_isdst = -1;
+                time_t secs = mktime(&tmv);
+                char text[64]; if(form) snprintf(text, sizeof text, "%04d-%02d-%02d", d[0], d[1], d[2]); else snprintf(text, sizeof text, "%04d-%02d-%02d %02d:%02d:%02d", d[0], d[1], d[2], d[3], d[4], d[5]);
+                Verdict v = check_text(text, {pf::Tt((uint64_t)secs, 0)}, false, 0, true);
+                vp::trace();
+                if(vp::replaying()) fprintf(stderr, "replay %s: text=<%s> verdict: %s %s\n", cid.c_str(), text, CLAUSE[v.c], v.detail.c_str());
+                vp::outcome(std::string("dst|") + CLAUSE[v.c]);
+                if(v.c != OK) vp::violation(std::string(CLAUSE[v.c]) + "|arg_vals|t:date,time-zone-with-daylight-saving", cid, v.detail + "; text=<" + text + "> under TZ=CET-1CEST");
+            }
+            setenv("TZ", "UTC", 1); tzset();
+            vp::bound("daylight_saving", "9 time stamps (winter, summer, around both switches) under TZ=CET-1CEST,M3.5.0,M10.5.0/3: scan, print, scan again");
+        }
+    }
     return vp::finish();
 }
